@@ -1,6 +1,7 @@
 pub mod checks;
 pub mod hx;
 pub mod inst;
+pub mod mutate;
 pub mod pool;
 pub mod prog;
 pub mod report;
